@@ -59,7 +59,7 @@ func initKey(m map[string]string) string {
 	return b.String()
 }
 
-var refLayouts = []string{"loose", "packed", "mixed"}
+var refLayouts = []string{"loose", "packed", "mixed", "gogit-packed-in-rounds"}
 
 // buildRefWorld creates, with git, a repository holding two commits (h1, h2) and, per
 // initial map and layout, a template .git directory.
@@ -145,6 +145,22 @@ func buildRefWorld(inits []map[string]string) (*refWorld, error) {
 					}
 				}
 				gitcli.Run(d, nil, "pack-refs", "--all")
+			case "gogit-packed-in-rounds":
+				// go-git's own PackRefs, one round per reference in reverse name order: the resulting
+				// packed-refs is NOT sorted by name (go-git writes the newly packed refs first)
+				gst := filesystem.NewStorage(osfs.New(gd), nil)
+				for k := len(names) - 1; k >= 0; k-- {
+					n := names[k]
+					if err := set(n, in[n]); err != nil {
+						return nil, err
+					}
+					if n != "HEAD" && in[n] != "none" {
+						if err := gst.PackRefs(); err != nil {
+							return nil, fmt.Errorf("PackRefs: %v", err)
+						}
+					}
+				}
+				gst.Close()
 			case "mixed":
 				// stale packed values shadowed by fresh loose ones, plus a packed-only annotated-style peel line
 				for _, n := range names {
